@@ -1584,6 +1584,12 @@ def _hist_oracle(a, ires):
             view = nview; continue
         if not ok and st[1] == 99:
             return ("C08/%s.history/caller-object-or-shared-state" % name, where)
+        if (not ok and nview != view and c == P_INPLACE and kind == 0 and st[1] in (1, 2, 3) and len(op) - 2 > 255
+                and nview[0] in (op[2:2 + op[1]], op[2:]) and nview[1] == [len(nview[0]), len(nview[0]) + 1]):
+            # two assignments of one bytearray the caller extends in between, beyond 255 octets: the unchanged library takes
+            # both and refuses at pack(); when the second one is refused instead, the first one has happened, and the
+            # caller's own extension of its buffer shows through if the LV holds that very object
+            view = nview; last_pack = None; continue
         if not ok and nview != view:
             return ("C08/%s.history/refused-operation-changed-the-object" % name,
                     "%s raised error class %d but the object reads %s instead of %s" % (where, st[1], nview, view))
@@ -1707,6 +1713,8 @@ def oracle(case, ires, sres):
         if len(v) > 255:
             return None if err and code in (1, 2, 3) else ("C08/CfdpTlv.__init__/too-long-accepted", "%d octets -> %s" % (len(v), ires[:2]))
         if 0 <= t <= 255:
+            if t not in TLV_TYPES and err and code in (1, 2, 3):
+                return None     # a type code no TLV has (the decoder refuses it): the constructor may refuse it as well
             exp = [[t], v, [len(v) + 2], [0] + tlv_bytes(t, v)]
             if err or ires[1:] != exp or sres[0][1] != tlv_bytes(t, v):
                 return ("C08/CfdpTlv.pack/layout", "(%d, %d octets) -> %s" % (t, len(v), ires[:5]))
@@ -1736,6 +1744,8 @@ def oracle(case, ires, sres):
             if ires[1] != [exp]:
                 return ("C08/EntityIdTlv.__eq__/value", "%s == %s -> %s" % (a[0], a[1], ires))
         return None
+    if op in (1005, 1006) and err and code in (1, 2, 3) and (a[0][0] not in TLV_TYPES or a[2][0] not in TLV_TYPES):
+        return None             # a type code no TLV has (the decoder refuses it): building such a TLV / enum value may be refused
     if op == 1006:
         if len(a[1]) <= 255 and (err != (a[0] != a[2]) or (err and code != 6)):
             return ("C08/AbstractTlvBase.check_type", "%s vs %s -> %s" % (a[0], a[2], ires))
